@@ -286,3 +286,66 @@ func vt_C17_corner_polar() {
 	vfAssert(near(p1.X*s-p1.Y*c, 0), "p1 on the second edge")
 	vfAssert(p1.X*c+p1.Y*s > 0, "p1 on the positive side")
 }
+
+// N-gons are regular: n vertices on the circle of the given radius, equal sides, first on the +x axis.
+func vc_C17_nagon() {
+	n := 3 + vfCase("n", 10)
+	r := vfPosParam("radius", 1000)
+	vs := Nagon(n, r)
+	vfReach("nagon")
+	vfAssert(len(vs) == n, "Nagon returns n vertices")
+	if len(vs) != n {
+		return
+	}
+	tol := vfTol(0, 1e-9) * r
+	rel := 1e-9 * r * r
+	vfAssert(vfAnd(vs[0].X == r, vs[0].Y == 0), "the first vertex is (radius, 0)")
+	side0 := vs[1].Sub(vs[0]).Length2()
+	for i := 0; i < n; i++ {
+		d := vs[i].Length2() - r*r
+		vfAssert(vfAnd(d <= rel, -d <= rel), "every N-gon vertex lies on the circle of the given radius")
+		e := vs[(i+1)%n].Sub(vs[i]).Length2() - side0
+		vfAssert(vfAnd(e <= rel, -e <= rel), "all N-gon sides have the same length")
+		// counter-clockwise and convex: consecutive cross products positive
+		vfAssert(vs[i].Cross(vs[(i+1)%n]) > 0, "N-gon vertices run counter-clockwise")
+	}
+	_ = tol
+	vfAssert(Nagon(2, r) == nil, "fewer than three sides gives no polygon")
+}
+
+// Arc segment a -> b with facets = 2: one inserted point. It is equidistant from
+// both endpoints, the circle through a, point, b has the given radius
+// (circumradius: s^2 |ab| = 2 r |cross|), and the opposite sign of the radius
+// gives its mirror image about the chord. Bound: a at the origin, b on the +x
+// axis, radius >= 0.51 |ab| (no degenerate half circle).
+func vt_C17_arc_midpoint() {
+	vfTimeouts(4000, 12000)
+	L := vfPosParam("chord", 50)
+	vfAssume(L >= 0.1)
+	r := vfPosParam("r", 100)
+	vfAssume(r >= 0.51*L)
+	a, b := v2.Vec{}, v2.Vec{X: L}
+	build := func(radius float64) []v2.Vec {
+		p := NewPolygon()
+		p.AddV2(a)
+		p.AddV2(b).Arc(radius, 2)
+		return p.Vertices()
+	}
+	up, dn := build(r), build(-r)
+	vfReach("arc")
+	vfAssert(len(up) == 3 && len(dn) == 3, "an arc with two facets inserts one point")
+	if len(up) != 3 || len(dn) != 3 {
+		return
+	}
+	tol := 1e-9
+	near := func(x, y float64) bool { return vfAnd(x-y <= tol, y-x <= tol) }
+	for _, pt := range []v2.Vec{up[1], dn[1]} {
+		s2 := pt.Sub(a).Length2()
+		vfAssert(near(s2, pt.Sub(b).Length2()), "the arc point is equidistant from both endpoints")
+		cr := b.Sub(a).Cross(pt.Sub(a))
+		vfAssert(cr != 0, "the arc point is off the chord")
+		vfAssert(near(s2*s2*L*L, 4*r*r*cr*cr), "the circle through the endpoints and the arc point has the given radius")
+	}
+	vfAssert(vfAnd(near(up[1].X, dn[1].X), near(up[1].Y, -dn[1].Y)), "the sign of the radius mirrors the arc about the chord")
+	vfAssert(up[1].Y*dn[1].Y < 0, "the two signs put the arc on opposite sides of the chord")
+}
